@@ -4,14 +4,14 @@ import json, os, subprocess, sys
 props = {json.loads(l)["id"]: json.loads(l) for l in open("/verif/properties.jsonl")}
 tmpl = open("/verif/seed_prompt_template.txt").read()
 for pid in sys.argv[1:]:
-    wt = f"/tmp/seed/{pid}"
+    root = os.environ.get("SEEDROOT", "/tmp/seed"); wt = f"{root}/{pid}"
     if not os.path.exists(wt):
-        os.makedirs("/tmp/seed", exist_ok=True)
+        os.makedirs(root, exist_ok=True)
         subprocess.check_call(["git", "-C", "/repo", "worktree", "add", "--detach", "-q", wt, "HEAD"])
         os.makedirs(wt + "/out", exist_ok=True)
     p = props[pid]
     s = (tmpl.replace("@WT@", wt).replace("@ID@", pid).replace("@TITLE@", p["title"])
          .replace("@STATEMENT@", p["statement"]).replace("@QUANT@", p["quantifier"]["text"])
          .replace("@FILES@", ", ".join(p["anchors"]["files"])))
-    open(f"/tmp/seed/{pid}.prompt", "w").write(s)
+    open(f"{root}/{pid}.prompt", "w").write(s)
     print(pid, wt)
